@@ -6,6 +6,7 @@ limits to dynamic scaling and weighted capacity pools.
 """
 
 import logging
+from collections.abc import Callable
 from typing import Protocol, runtime_checkable
 
 logger = logging.getLogger(__name__)
@@ -178,6 +179,7 @@ class DynamicConcurrency:
         self._min_limit = min_limit
         self._max_limit = max_limit
         self._active = 0
+        self._increase_listeners: list[Callable[[], None]] = []
 
         logger.debug(
             "DynamicConcurrency created: initial=%d, min=%d, max=%s",
@@ -200,6 +202,14 @@ class DynamicConcurrency:
     def max_limit(self) -> int | None:
         """Maximum allowed limit (None = unlimited)."""
         return self._max_limit
+
+    def on_limit_increase(self, callback: Callable[[], None]) -> None:
+        """Register a callback invoked whenever the limit has been raised.
+
+        The model is a passive object; whoever feeds it work (e.g. ``Server``)
+        registers here to learn that waiting work may start now.
+        """
+        self._increase_listeners.append(callback)
 
     def set_limit(self, new_limit: int) -> None:
         """Adjust the concurrency limit.
@@ -224,6 +234,10 @@ class DynamicConcurrency:
             clamped,
             new_limit,
         )
+
+        if clamped > old_limit:
+            for callback in self._increase_listeners:
+                callback()
 
     def scale_up(self, amount: int = 1) -> None:
         """Increase the concurrency limit.
